@@ -222,7 +222,10 @@ func runDV(rng *rand.Rand) (viols []viol, st runStats) {
 		}
 	}
 
-	type step struct{ kind, val, y int }
+	type step struct {
+		kind, val, y int
+		ep           string // "" = Set (kind 0, 1) / Compute (kind 2); else one of the other exported write entry points
+	}
 	overl := 0
 	// targets attached (InheritFrom / DeriveValueFrom / new DerivedVariable on existing inputs) while the source is
 	// being written; they stay attached and are checked at every later quiescent point
@@ -298,21 +301,34 @@ func runDV(rng *rand.Rand) (viols []viol, st runStats) {
 			for w := 0; w < wPer; w++ {
 				plan := make([]step, 1+rng.Intn(3))
 				for k := range plan {
-					plan[k] = step{rng.Intn(3), rng.Intn(1000), rng.Intn(3)}
+					plan[k] = step{kind: rng.Intn(3), val: rng.Intn(1000), y: rng.Intn(3)}
 					if rng.Intn(5) < 2 {
-						plan[k] = step{0, 0, rng.Intn(3)} // the zero value as a written value (X -> 0 -> X ...)
+						plan[k] = step{kind: 0, val: 0, y: rng.Intn(3)} // the zero value as a written value (X -> 0 -> X ...)
+					}
+					if rng.Intn(3) == 0 { // every other exported write entry point of the Variable interface
+						plan[k].ep = varEntryPointsBeyondSetCompute[rng.Intn(len(varEntryPointsBeyondSetCompute))]
+						st.add("writes_beyond_set_compute", 1)
 					}
 				}
 				if i == armedInput && w == 0 {
-					plan = append(plan, step{0, 1 + rng.Intn(999), 0}, step{0, 0, 0}) // X, then back to the zero value
+					plan = append(plan, step{kind: 0, val: 1 + rng.Intn(999)}, step{}) // X, then back to the zero value
 				}
 				st.ops += len(plan)
 				v := in[i]
 				g.spawn(fmt.Sprintf("writer of input %d", i), func() {
 					for _, s := range plan {
 						yield(s.y)
-						switch s.kind {
-						case 0, 1:
+						switch {
+						case s.ep != "":
+							t0 := tick()
+							writeVar(v, s.ep, s.val, 1000)
+							if endsAtZero(s.ep, s.val) {
+								t1 := tick()
+								amu.Lock()
+								zeroWrites[i] = append(zeroWrites[i], span{t0, t1})
+								amu.Unlock()
+							}
+						case s.kind < 2:
 							t0 := tick()
 							v.Set(s.val)
 							if s.val == 0 {
@@ -321,7 +337,7 @@ func runDV(rng *rand.Rand) (viols []viol, st runStats) {
 								zeroWrites[i] = append(zeroWrites[i], span{t0, t1})
 								amu.Unlock()
 							}
-						case 2:
+						default:
 							v.Compute(func(c int) int { return (c + s.val) % 1000 })
 						}
 						progress.Add(1)
@@ -825,15 +841,21 @@ func runCounter(rng *rand.Rand) (viols []viol, st runStats) {
 		g := newGroup()
 		for i := range in {
 			plan := make([][2]int, 1+rng.Intn(4))
+			eps := make([]string, len(plan))
 			for k := range plan {
 				plan[k] = [2]int{pickVal(rng.Intn(3)), rng.Intn(3)} // moves in and out of the condition, through zero
+				eps[k] = "Set"
+				if rng.Intn(3) == 0 { // any exported write entry point of the Variable interface
+					eps[k] = varEntryPoints[1+rng.Intn(len(varEntryPoints)-1)]
+					st.add("writes_beyond_set_compute", 1)
+				}
 			}
 			st.ops += len(plan)
 			v := in[i]
 			g.spawn(fmt.Sprintf("writer of input %d", i), func() {
-				for _, s := range plan {
+				for k, s := range plan {
 					yield(s[1])
-					v.Set(s[0])
+					writeVar(v, eps[k], s[0], maxVal)
 					progress.Add(1)
 				}
 			})
@@ -907,6 +929,7 @@ func newSSEnv[E comparable](k elemKind[E], U int, rng *rand.Rand) *ssEnv[E] {
 
 type ssStep struct {
 	Kind  string `json:"kind"`
+	EP    string `json:"entry_point,omitempty"`
 	E     int    `json:"e,omitempty"`
 	W     int    `json:"w,omitempty"`
 	A, B  uint32
@@ -933,6 +956,20 @@ func (e *ssEnv[E]) exec(s ssStep) {
 		e.w[s.E].Set(s.W)
 	case "wcompute":
 		e.w[s.E].Compute(func(c int) int { return c + s.W })
+	case "wentry": // the weight variable is written through one of the other exported entry points
+		writeVar(e.w[s.E], s.EP, s.W, 0)
+	case "addall":
+		e.ss.AddAll(e.set(s.A))
+	case "deleteall":
+		e.ss.DeleteAll(e.set(s.A))
+	case "toggle":
+		el := e.k.mk(s.E)
+		e.ss.Compute(func(cur ds.ReadableSet[E]) ds.SetMutations[E] {
+			if cur.Has(el) {
+				return ds.NewSetMutations[E]().WithDeletedElements(ds.NewSet(el))
+			}
+			return ds.NewSetMutations[E](el)
+		})
 	case "apply":
 		e.ss.Apply(ds.NewSetMutations[E]().WithAddedElements(e.set(s.A)).WithDeletedElements(e.set(s.B)))
 	case "replace":
@@ -1004,8 +1041,16 @@ func genSSStep(rng *rand.Rand, U int, elems []int, kinds []string) ssStep {
 	s := ssStep{Kind: kinds[rng.Intn(len(kinds))], Yield: rng.Intn(4)}
 	pick := func() int { return elems[rng.Intn(len(elems))] }
 	switch s.Kind {
-	case "add", "delete":
+	case "add", "delete", "toggle":
 		s.E = pick()
+	case "addall", "deleteall":
+		for _, x := range elems {
+			if rng.Intn(3) == 0 {
+				s.A |= 1 << uint(x)
+			}
+		}
+	case "wentry":
+		s.E, s.W, s.EP = pick(), rng.Intn(9)-3, varEntryPointsBeyondSetCompute[rng.Intn(len(varEntryPointsBeyondSetCompute))]
 	case "weight":
 		s.E, s.W = pick(), rng.Intn(9)-3
 	case "wcompute":
@@ -1067,7 +1112,7 @@ func runSS[E comparable](k elemKind[E], scenario string, rng *rand.Rand) (viols 
 	switch scenario {
 	case "ss-seq":
 		withReplace := rng.Intn(2) == 0
-		kinds := []string{"add", "add", "delete", "weight", "weight", "wcompute", "apply"}
+		kinds := []string{"add", "add", "delete", "weight", "weight", "wcompute", "apply", "wentry", "wentry", "addall", "deleteall", "toggle"}
 		if withReplace {
 			kinds = append(kinds, "replace")
 		}
@@ -1084,6 +1129,9 @@ func runSS[E comparable](k elemKind[E], scenario string, rng *rand.Rand) (viols 
 				det["history"] = hist
 				st.nontrivial = true
 				fp := "sortedset/" + kind + "-after/" + s.Kind
+				if s.EP != "" {
+					fp += "/" + s.EP
+				}
 				if replaced {
 					fp = "sortedset/diverges-after-replace"
 				}
@@ -1114,7 +1162,7 @@ func runSS[E comparable](k elemKind[E], scenario string, rng *rand.Rand) (viols 
 				}
 				plan := make([]ssStep, 1+rng.Intn(5))
 				for i := range plan {
-					plan[i] = genSSStep(rng, U, own[gi], []string{"add", "add", "delete", "weight", "weight", "wcompute"})
+					plan[i] = genSSStep(rng, U, own[gi], []string{"add", "add", "delete", "weight", "wentry", "wcompute"})
 				}
 				st.ops += len(plan)
 				st.structural += len(plan) / 2
@@ -1148,7 +1196,7 @@ func runSS[E comparable](k elemKind[E], scenario string, rng *rand.Rand) (viols 
 			for b := 0; b < B; b++ {
 				plan := make([]ssStep, 2+rng.Intn(6))
 				for i := range plan {
-					plan[i] = genSSStep(rng, U, allElems(U), []string{"weight", "wcompute"})
+					plan[i] = genSSStep(rng, U, allElems(U), []string{"weight", "weight", "wcompute", "wentry"})
 				}
 				st.ops += len(plan)
 				g.spawn("weight writer", func() {
@@ -1196,7 +1244,7 @@ func runSS[E comparable](k elemKind[E], scenario string, rng *rand.Rand) (viols 
 			for b := 0; b < B; b++ {
 				plan := make([]ssStep, 2+rng.Intn(6))
 				for i := range plan {
-					plan[i] = genSSStep(rng, U, allElems(U), []string{"weight", "wcompute"})
+					plan[i] = genSSStep(rng, U, allElems(U), []string{"weight", "weight", "wcompute", "wentry"})
 				}
 				st.ops += len(plan)
 				g.spawn("weight writer", func() {
@@ -1771,6 +1819,10 @@ func runOne(scenario string, rng *rand.Rand) ([]viol, runStats) {
 		return runEvict(rng)
 	case "switch":
 		return runSwitch(rng)
+	case "entry-var":
+		return runEntryVar(rng)
+	case "entry-set":
+		return runEntrySet(rng)
 	}
 	panic("unknown scenario " + scenario)
 }
@@ -1832,7 +1884,7 @@ func child(c *vf.Ctx) {
 var scenarios = []struct {
 	name  string
 	share int
-}{{"dv", 12}, {"dset", 12}, {"subtract", 8}, {"counter", 9}, {"ss-seq", 9}, {"ss-owner", 9}, {"ss-addw", 8}, {"ss-dl", 8}, {"wg", 9}, {"evict", 9}, {"switch", 7}}
+}{{"entry-var", 8}, {"entry-set", 4}, {"dv", 12}, {"dset", 12}, {"subtract", 8}, {"counter", 9}, {"ss-seq", 9}, {"ss-owner", 9}, {"ss-addw", 8}, {"ss-dl", 8}, {"wg", 9}, {"evict", 9}, {"switch", 7}}
 
 func run(c *vf.Ctx) {
 	if c.Replay != "" {
@@ -1856,7 +1908,7 @@ func run(c *vf.Ctx) {
 		}
 		return
 	}
-	c.SetRule("one evaluation = one run of one scenario (DerivedVariable1-4/InheritFrom/DeriveValueFrom, DerivedSet, SubtractReactive, Counter, SortedSet x4, WaitGroup, EvictionState) on fresh objects: seeded writer goroutines on different inputs plus structural changes (inherit/unsubscribe source, Monitor, add/delete/re-add element, Replace on a source, weight updates of present and removed elements), then the defining function is recomputed from the inputs at quiescence (right after construction/attachment with inputs that are already zero / non-zero, after every round of concurrent writes, in sequential scenarios after every step; Counter conditions come from a seeded family incl. conditions that hold for the zero value; writer streams include the zero value / the empty set; InheritFrom, DeriveValueFrom and new DerivedVariables are attached to inputs while these are written and stay checked); runs are distinct by construction (run seed); distinct_nontrivial counts runs in which at least two writer goroutines' activity spans overlapped by logical ticks (sequential scenarios: at least 3 effective steps)")
+	c.SetRule("one evaluation = one run of one scenario (DerivedVariable1-4/InheritFrom/DeriveValueFrom, DerivedSet, SubtractReactive, Counter, SortedSet x4, WaitGroup, EvictionState) on fresh objects: seeded writer goroutines on different inputs plus structural changes (inherit/unsubscribe source, Monitor, add/delete/re-add element, Replace on a source, weight updates of present and removed elements), then the defining function is recomputed from the inputs at quiescence (right after construction/attachment with inputs that are already zero / non-zero, after every round of concurrent writes, in sequential scenarios after every step; Counter conditions come from a seeded family incl. conditions that hold for the zero value; writer streams include the zero value / the empty set; InheritFrom, DeriveValueFrom and new DerivedVariables are attached to inputs while these are written and stay checked); entry-var / entry-set: inputs (plain, transforming, derived and counter carriers, Events, reactive Sets) that already have every kind of derived value attached are written through every exported write entry point (Init, Set, Compute, DefaultTo, ToggleValue and its reset, InheritFrom, DeriveValueFrom, Trigger; Add, AddAll, Delete, DeleteAll, Apply, Compute, Replace, Clear, Decode), sequentially with the oracle after every step and in concurrent rounds; the writer mixes of dv, counter and the SortedSet weights use the same entry points; runs are distinct by construction (run seed); distinct_nontrivial counts runs in which at least two writer goroutines' activity spans overlapped by logical ticks (sequential scenarios: at least 3 effective steps)")
 	total := c.Pick(30000, 600000)
 	chunk := c.Pick(600, 6000)
 	var jobs []job
@@ -1902,6 +1954,19 @@ func run(c *vf.Ctx) {
 	c.Require("switches_racing_free_writers", total/20)
 	c.Require("attaches_inside_zero_write_callback", total/100)
 	c.Require("attaches_racing_zero_write", max(total/2000, total/100*par/10))
+	// every exported write entry point must really have been used on inputs that already had derived values attached
+	for _, ep := range varEntryPoints {
+		c.Require("entry_writes:"+ep, total/400)
+	}
+	for _, ep := range setEntryPoints {
+		c.Require("entry_set_writes:"+ep, total/400)
+	}
+	for _, k := range []string{"variable", "variable-with-transformation", "derivedvariable", "counter"} {
+		c.Require("entry_writes_on_carrier:"+k, total/400)
+	}
+	c.Require("entry_event_writes", total/400)
+	c.Require("entry_set_effective_clear_or_decode", total/400)
+	c.Require("writes_beyond_set_compute", total/20)
 }
 
 func main() { vf.Main("C14", "exploration", run, child) }
